@@ -179,6 +179,10 @@ def conclude(ctx):
 
 
 def replay(data):
+    if "hang" in data["payload"]:
+        from . import hang
+
+        return hang.replay_hung_attempt_runs("C11")
     if "tspec" in data["payload"]:
         return tconc.replay(data["payload"])
     p = data["payload"]
